@@ -1,0 +1,34 @@
+//go:build verif
+
+// Contracts for blockDeviceBackedLocationRecordArray (properties C06 and C02):
+// which bytes of a 66-byte record mean what. A record is accepted only if the
+// block reference it carries (epoch at byte 0, blocks-from-last at byte 4)
+// still resolves and the checksum stored at byte 58 equals the one computed
+// with that epoch's hash seed; the location handed out is decoded from bytes
+// 38 (attempt), 42 (offset) and 50 (size) at full width. Comment-only file.
+package local
+
+//@ ghost rrEpoch(ref) int
+//@ ghost rrBFL(ref) int
+//@ ghost rrFound(ref) int
+//@ ghost rrSeed(ref) int
+//@ iface BlockReferenceResolver.BlockReferenceToBlockIndex
+//@   modifies rrEpoch(self), rrBFL(self), rrFound(self), rrSeed(self)
+//@   ensures rrEpoch(self) == blockReference.EpochID && rrBFL(self) == blockReference.BlocksFromLast
+//@   ensures (rrFound(self) == 1 <==> result2) && rrSeed(self) == result1
+
+// The checksum is a function of the record's bytes and the seed (the bytes
+// are not modelled: of the seed only).
+//@ ufunc recCks(u64) u64
+//@ func computeChecksumForRecord
+//@   trusted
+//@   modifies nothing
+//@   ensures result == recCks(h)
+
+//@ func (*blockDeviceBackedLocationRecordArray).Get
+//@   requires lra.device != nil && lra.resolver != nil && index >= 0 && index <= 100000000000
+//@   ensures [only-resolvable-references] result1 == nil ==> rrFound(lra.resolver) == 1
+//@         && rrEpoch(lra.resolver) == le32(record, 0) && rrBFL(lra.resolver) == le16(record, 4)
+//@   ensures [checksum-under-the-epochs-seed] result1 == nil ==> recCks(rrSeed(lra.resolver)) == le64(record, 58)
+//@   ensures [location-decoded-at-full-width] result1 == nil ==> result0.RecordKey.Attempt == le32(record, 38)
+//@         && result0.Location.OffsetBytes == le64(record, 42) && result0.Location.SizeBytes == le64(record, 50)
